@@ -760,6 +760,17 @@ fn enabled_c14(w: &RouterWorld, cfg: &Cfg, v: &mut Vec<(Act, u8)>) {
                 for kind in [2u8, 3, 8] {
                     v.push((Act::Batch { c: m, kind }, 0));
                 }
+                // every other misbehaviour of the menu, once per history
+                for k in 0..super::hostile::BAD_KINDS {
+                    if !kinds.contains(&k) {
+                        v.push((Act::Bad { c: m, kind: k }, 1));
+                    }
+                }
+                for kind in 0..super::hostile::BATCH_KINDS {
+                    if ![2u8, 3, 8].contains(&kind) {
+                        v.push((Act::Batch { c: m, kind }, 1));
+                    }
+                }
             }
             v.push((Act::DiscPkt { c: m }, 0));
             v.push((Act::Drop { c: m }, 0));
@@ -810,6 +821,18 @@ fn enabled_c15(w: &RouterWorld, cfg: &Cfg, v: &mut Vec<(Act, u8)>) {
         }
     }
     rel_actions(w, &[p], v);
+    if cfg.variant == 3 && !w.manual {
+        // a will with the retain flag: stored like a retained publish when it fires, and
+        // its copies towards the subscribers of that moment are not flagged
+        if live(w, 1) {
+            v.push((Act::Drop { c: 1 }, 0));
+            v.push((Act::DiscPkt { c: 1 }, 0));
+        } else if can_connect(w, 1) && !w.ended.iter().any(|e| e.ci == 1 && !e.pending.is_empty()) {
+            for will in [2u8, 4] {
+                v.push((Act::Connect { c: 1, clean: true, will }, 0));
+            }
+        }
+    }
     for c in [2u8, 3u8] {
         if !live(w, c) {
             continue;
